@@ -35,9 +35,9 @@ func ConvertQueueErr(err error) error {
 
 // NormalizeSlotIndex slot index
 func NormalizeSlotIndex(index int, slotSize int) int {
+	index %= slotSize
 	if index < 0 {
 		index = -index
 	}
-	index %= slotSize
 	return index
 }
